@@ -86,6 +86,32 @@ func parserCall(p *parser.Parser, entry string, toks []models.TokenWithSpan, can
 			return "conv-error"
 		}
 		tree, err = p.Parse(conv.Tokens)
+	case "ParseContextRaw":
+		conv, cerr := parser.VerifConvert(toks)
+		if cerr != nil {
+			return "conv-error"
+		}
+		tree, err = p.ParseContext(&countCtx{Context: context.Background(), k: cancelAt, err: context.Canceled}, conv.Tokens)
+	case "ParseWithPositionsResult":
+		conv, cerr := parser.VerifConvert(toks)
+		if cerr != nil {
+			return "conv-error"
+		}
+		tree, err = p.ParseWithPositions(conv)
+	case "ParseWithRecoveryRaw":
+		conv, cerr := parser.VerifConvert(toks)
+		if cerr != nil {
+			return "conv-error"
+		}
+		stmts, errs := p.ParseWithRecovery(conv.Tokens)
+		var b strings.Builder
+		for _, s := range stmts {
+			b.WriteString(dumpNode(s) + ";")
+		}
+		for _, e := range errs {
+			b.WriteString("ERR:" + e.Error() + ";")
+		}
+		return b.String()
 	}
 	out := ""
 	if tree != nil {
@@ -121,6 +147,9 @@ var c08Inputs = []string{
 	"SELECT CASE WHEN a THEN 1 ELSE END FROM t",
 	"SELECT a FROM t WHERE a BETWEEN 1 AND",
 	"SELECT a FROM t WHERE MATCH(a) AGAINST (MATCH(a) AGAINST (",
+	// failures inside every kind of quoted form, and statements whose quoted forms need decoding
+	"SELECT 'abc\\q'", "SELECT 'leak\\", "SELECT 'it''s", "SELECT \"a\"\"b", "SELECT `x``y", "SELECT $$ab", "SELECT $t$ab$u$", "SELECT 'two\nlines", "SELECT 1e", "SELECT 'é\\q'",
+	"SELECT 'x'", "SELECT 'don''t', \"q\"\"r\", `s``t`, $$u$$, 'v\\nw' FROM t", "SELECT a FROM t WHERE b = 'x' AND c = )", "SELECT a\n\n  FROM t WHERE\n b = 'multi\nline' AND )",
 }
 
 func runC08(c *runCtx) {
@@ -128,7 +157,7 @@ func runC08(c *runCtx) {
 	res.Rule = "random histories (length 1-8) of entry-point calls (5 parser entry points, valid/invalid/deeply nested/cancelled-at-k inputs), option changes, Reset, Release and pool put/get on ONE instance, followed by a probe compared with the same call on a freshly constructed instance with the same configuration; tokenizer likewise; distinct = distinct (history, probe) pairs"
 	debug.SetGCPercent(-1)
 	defer debug.SetGCPercent(100)
-	entries := []string{"Parse", "ParseWithPositions", "ParseContext", "ParseWithRecovery", "ParseRaw"}
+	entries := []string{"Parse", "ParseWithPositions", "ParseContext", "ParseWithRecovery", "ParseRaw", "ParseContextRaw", "ParseWithPositionsResult", "ParseWithRecoveryRaw"}
 	tokCache := map[string][]models.TokenWithSpan{}
 	toksOf := func(sql string) []models.TokenWithSpan {
 		if t, ok := tokCache[sql]; ok {
@@ -289,6 +318,10 @@ func runC08(c *runCtx) {
 		"SELECT a FROM t", "SELECT\n1", "SELECT 'ab\ncd', $$oops", "a\tb\n\tc -- x\n/* y\nz */ d", "'unterminated",
 		"          SELECT id FROM users WHERE x = 'unterminated", "\n\n\n\n\n\n\n\n                                  SELECT \"bad\nident", "SELECT 1e", "",
 		"   \n\t  ", strings.Repeat("a ", 250), "SELECT 'it''s' || \"q\" /* c */ -- d", "\t\t\t\tx @ y", "SELECT $tag$ body $tag$ , $1",
+		// failures inside every kind of quoted form (bad escape, input ending after a backslash, never closed), and texts
+		// whose quoted forms need decoding or not
+		"SELECT 'abc\\q'", "SELECT 'leak\\", "SELECT 'it''s", "SELECT \"a\"\"b", "SELECT `x``y", "SELECT $t$ab$u$", "SELECT 'é\\q'", "SELECT 'q''a",
+		"SELECT 'x'", "SELECT 'x', \"y\", `z`", "SELECT 'don''t', \"q\"\"r\", `s``t`, $$u$$, 'v\\nw'", "SELECT 'ü', \"ü\"",
 	}
 	for it := 0; it < n/2; it++ {
 		t, _ := tokenizer.New()
